@@ -203,7 +203,7 @@ def check(run, replay=None):
             if run.tier == "quick":
                 budget = 900 if nobj <= 40 else (220 if nobj <= 200 else 90)
             else:
-                budget = 6000 if nobj <= 40 else (1200 if nobj <= 200 else 300)
+                budget = 3000 if nobj <= 40 else (800 if nobj <= 200 else 250)
             cases.append((name, kind, setup, G.gen_queries(run.rng, t, run.tier, budget)))
     results = run_scripts(exe, drv, cases)
     judge(run, cases, results)
